@@ -162,11 +162,13 @@ func (c *Ctx) c20Oracle(gen string, p c20pts) {
 	c.Emit("c20.holds.winding", cls+" "+pts+" "+ts.String(), "true")
 	c.Emit("c20.holds.delaunay", cls+" "+pts+" "+ts.String(), "true")
 	c.Emit("c20.holds.no_overlap", cls+" "+pts+" "+ts.String(), "true")
-	// the two named, unproved geometric hypotheses of the Delaunay / winding theorems (FanPositive, FanEmpty), decided by
+	// FanPositive / FanEmpty (now consequences of CavityDisc, bw_delaunay_of_cavityDisc; kept as cross-checks), decided by
 	// the driver on the MODEL's own run over these points in exact rational arithmetic (small inputs: the model is quadratic)
 	if len(p) <= 40 {
 		c.Emit("c20.holds.fan_positive", cls+" "+pts, "true")
 		c.Emit("c20.holds.fan_empty", cls+" "+pts, "true")
+		// the ONE hypothesis the Delaunay / winding theorems still need (CavityDisc: in- and out-degree one on the cavity boundary)
+		c.Emit("c20.holds.cavity_disc", cls+" "+pts, "true")
 		c.Note("fan-hypotheses.evaluated")
 	}
 }
